@@ -370,7 +370,10 @@ static bool EndsWith(const std::string& s, size_t end, const std::string& suffix
 void World::CheckOutput(const InvRecord& r) {
   if (r.plan.dry || !r.plan.tool.empty()) return;
   if (r.res.end != ProcResult::kExit) return;           // a killed ninja prints what it got to
-  if (IoFault(r)) return;
+  // injected I/O errors never hit ninja's own stdout; after one ninja stops the build in an
+  // orderly way (what it holds back must still be shown) unless it calls Fatal(), which
+  // exits on the spot (K17)
+  if (IoFault(r) && (r.res.err.find("ninja: fatal: ") != std::string::npos || r.res.out.find("ninja: fatal: ") != std::string::npos)) return;
   const std::string& T = r.res.out;
   bool smart = r.plan.tty && !r.plan.verbose && !r.plan.quiet;
   bool color = r.plan.tty;   // colour support is decided from the terminal alone, whatever the verbosity
@@ -435,7 +438,17 @@ void World::CheckOutput(const InvRecord& r) {
         Report("C20", "output_interleaved", "the output of failed statement " + S(x.stmt) + " is not directly preceded by its FAILED header and command line");
       else stats->n["failed_blocks_checked"]++;
     } else if (!r.plan.quiet) {
-      if (!EndsWith(T, before, desc + "\n"))
+      bool ok = EndsWith(T, before, desc + "\n");
+      if (!ok && IoFault(r)) {
+        // a command that succeeded can still fail as an edge (its depfile cannot be read or
+        // removed): ninja then shows its output under a FAILED header with status 1
+        std::string outs;
+        for (auto& p : x.outs) outs += p + " ";
+        std::string failed = "FAILED: [code=1] ";
+        if (color) failed = "\x1B[31m" + failed + "\x1B[0m";
+        ok = EndsWith(T, before, failed + outs + "\n" + x.cmd + "\n");
+      }
+      if (!ok)
         Report("C20", "output_interleaved", "the output of statement " + S(x.stmt) + " does not directly follow its own status line");
     }
   }
@@ -443,6 +456,7 @@ void World::CheckOutput(const InvRecord& r) {
   if (checked && concurrent_output) stats->nontrivial["C20"] = true;
 
   // ---- counters
+  if (IoFault(r)) return;   // a build stopped by an I/O error ends with commands started and not finished
   if (r.plan.quiet) return;
   if (smart && r.plan.cols < 80) return;   // a narrow terminal elides the middle of the line, counters included
   int last_s = -1, last_f = -1, last_t = -1;
@@ -482,6 +496,13 @@ void World::CheckOutput(const InvRecord& r) {
     const Stmt& ls = sc.stmts[last_done->stmt];
     const DyndepEntry* le = sc.DyndepFor(ls.id);
     if (ls.restat || (le && le->restat)) return;
+  }
+  // ... and so is the line of a command whose completion makes a dyndep file loadable: the
+  // re-scan that follows can find statements clean that were counted while the file was pending
+  if (last_done) {
+    for (const Ev& e : r.res.trace)
+      if (e.kind == Ev::kOpenRead && e.seq > last_done->reap_seq)
+        for (auto& dd : sc.dyndeps) if (e.s == "/w/" + dd.path) return;
   }
   if (lines && r.ok() && !interrupted && r.epochs >= 1) {
     if (last_f != last_t)
@@ -839,6 +860,7 @@ void World::CheckRecordedDeps(const InvRecord& r) {
 void World::CheckLogTimes(const InvRecord& r) {
   if (r.plan.dry || !r.plan.tool.empty() || r.fault_fired || r.log_torn_tail_before) return;
   if (r.res.end != ProcResult::kExit || !r.log_after.valid_header) return;
+  if (r.log_restated) return;   // `-t restat` records the outputs' own times, by design
   for (const SpawnRec& x : r.spawns) {
     if (x.stmt < 0 || x.stmt >= (int)sc.stmts.size() || x.reap_status != 0 || !x.reap_seq || x.outs.empty()) continue;
     const Stmt& s = sc.stmts[x.stmt];
